@@ -133,15 +133,23 @@ func main() {
 // ---------------------------------------------------------------- generator
 
 type zgen struct {
-	rng    *Rng
-	ops    []Sx
-	shadow map[int64]int64 // member -> score (intended semantics; only used to aim the generator)
-	univ   int
-	scores []int64
-	tieOps int
+	lastQuery Sx // the last read-only call issued (repeated right after mutating calls)
+	hasQuery  bool
+	Repeats   int
+	rng       *Rng
+	ops       []Sx
+	shadow    map[int64]int64 // member -> score (intended semantics; only used to aim the generator)
+	univ      int
+	scores    []int64
+	tieOps    int
 }
 
-func (g *zgen) add(op Sx) { g.ops = append(g.ops, op) }
+func (g *zgen) add(op Sx) {
+	g.ops = append(g.ops, op)
+	if c := op.At(0).AsInt(); c >= 4 && c <= 8 {
+		g.lastQuery, g.hasQuery = op, true
+	}
+}
 
 func (g *zgen) hasTie() bool {
 	seen := map[int64]bool{}
@@ -275,7 +283,109 @@ func (g *zgen) doAdd(e, s int64) {
 	g.shadow[e] = s
 }
 
+// a cheap read-only call, mostly about one member that is in the set
+func (g *zgen) smallQuery() Sx {
+	r := g.rng
+	e := g.member()
+	if len(g.shadow) > 0 && r.Chance(3, 4) {
+		k := r.Intn(len(g.shadow))
+		keys := make([]int64, 0, len(g.shadow))
+		for m := range g.shadow {
+			keys = append(keys, m)
+		}
+		sort.Slice(keys, func(i, j int) bool { return keys[i] < keys[j] })
+		e = keys[k]
+	}
+	switch r.Intn(8) {
+	case 0, 1, 2, 3:
+		return Ints(5, e, b2i(r.Bool()))
+	case 4:
+		return Ints(6, e)
+	case 5:
+		a, b := g.scoreRange()
+		return Ints(4, a, b)
+	case 6:
+		a := g.rankIdx()
+		return Ints(7, a, a+int64(r.Intn(4)), b2i(r.Bool()))
+	}
+	a, _ := g.scoreRange()
+	return Ints(8, a, a, b2i(r.Bool()))
+}
+
+// one step of a history.  Around every mutating call: now and then the same read-only call is
+// issued right before and right after it, or the previous read-only call of the history is
+// repeated right after it (stale memoised answers show exactly there)
+// GetRank(e) of the top member; one mutating call of each kind that changes the ranks below it;
+// GetRank(e) again at once, in both directions
+func (g *zgen) rankSandwich() {
+	r := g.rng
+	if len(g.shadow) < 3 {
+		return
+	}
+	type ent struct{ s, e int64 }
+	var l []ent
+	for e, s := range g.shadow {
+		l = append(l, ent{s, e})
+	}
+	sort.Slice(l, func(i, j int) bool { return l[i].s < l[j].s || l[i].s == l[j].s && l[i].e < l[j].e })
+	top := l[len(l)-1-r.Intn(2)]
+	rev := b2i(r.Bool())
+	g.add(Ints(5, top.e, rev))
+	switch r.Intn(4) {
+	case 0: // a new or moved member below
+		e := g.member() % int64(g.univ)
+		if e != top.e {
+			g.doAdd(e, l[0].s)
+		}
+	case 1:
+		g.add(Ints(1, l[0].e))
+		delete(g.shadow, l[0].e)
+	case 2:
+		if l[0].s < top.s {
+			g.add(Ints(2, l[0].s, l[0].s))
+			for e, s := range g.shadow {
+				if s == l[0].s {
+					delete(g.shadow, e)
+				}
+			}
+		}
+	default:
+		k := int64(r.Intn(2))
+		g.add(Ints(3, 0, k))
+		g.shadowRemoveRanks(0, k)
+	}
+	g.add(Ints(5, top.e, rev))
+	g.add(Ints(5, top.e, 1-rev))
+	g.Repeats++
+}
+
 func (g *zgen) mixed(allowBig bool) {
+	r := g.rng
+	if r.Chance(1, 8) {
+		g.rankSandwich()
+		return
+	}
+	var q Sx
+	before := r.Chance(1, 3)
+	if before {
+		q = g.smallQuery()
+		g.add(q)
+	}
+	n0 := len(g.ops)
+	g.mixed1(allowBig)
+	if len(g.ops) > n0 && g.ops[n0].At(0).AsInt() <= 3 { // a mutating call was issued
+		switch {
+		case before:
+			g.add(q)
+			g.Repeats++
+		case g.hasQuery && r.Chance(1, 2):
+			g.add(g.lastQuery)
+			g.Repeats++
+		}
+	}
+}
+
+func (g *zgen) mixed1(allowBig bool) {
 	r := g.rng
 	tie := g.hasTie()
 	switch r.Intn(20) {
@@ -372,6 +482,8 @@ func (g *zgen) shadowRemoveRanks(a, b int64) {
 	}
 }
 
+var repeatsTotal int
+
 func genHistory(rng *Rng, kind string) (Sx, bool) {
 	g := &zgen{rng: rng, shadow: map[int64]int64{}}
 	nops := 0
@@ -438,10 +550,12 @@ func genHistory(rng *Rng, kind string) (Sx, bool) {
 		}
 	}
 	g.add(Ints(10))
+	repeatsTotal += g.Repeats
 	return List(Int(int64(rng.Intn(1<<30))), ListOf(g.ops)), g.tieOps > 0
 }
 
 func gen(a Args, out *Out) {
+	defer func() { out.CountN("read-only call repeated right after a mutating call", repeatsTotal) }()
 	rng := NewRng(a.Seed)
 	counts := map[string]int{"small": 500, "medium": 260, "large": 40}
 	if a.Thorough() {
